@@ -456,7 +456,7 @@ theorem first_den {m : IM σ α} {cost : σ → Nat} {s : σ} {L : List (α × N
 /-! ## Counter, Repeat, Empty -/
 
 theorem empty_den : Den (empty (α := α)) (fun _ => 0) () [] 0 :=
-  den_of_ended (cost := fun _ => 0) (ended_fixed (m := empty (α := α)) (s := ()) rfl).1 (fun _ => rfl)
+  den_of_ended (cost := fun _ => 0) (ended_fixed (m := empty (α := α)) (s := ()) (by simp [empty, itEmptyOk])).1 (fun _ => rfl)
 
 theorem counter_den (n i : Int) (k : Nat) (hk : n - i = k ∨ (n ≤ i ∧ k = 0)) :
     Den (counter n) (fun _ => 0) i ((List.range k).map fun (j : Nat) => ((i + (j : Int)), 0)) 0 := by
@@ -468,7 +468,7 @@ theorem counter_den (n i : Int) (k : Nat) (hk : n - i = k ∨ (n ≤ i ∧ k = 0
     exact den_of_ended (cost := fun _ => 0) (ended_fixed hfix).1 (fun _ => rfl)
   | succ k ih =>
     have hi : ¬ n ≤ i := by omega
-    have hstep : (counter n).step i = (.item i, i + 1) := by simp [counter, itCounterDone, hi, itCounterAdvances]
+    have hstep : (counter n).step i = (.item i, i + 1) := by simp [counter, itCounterDone, hi, itCounterAdvances, itCounterItem]
     have := Den.item (cost := fun _ => 0) hstep (ih (i + 1) (by omega))
     have e : (List.range (k + 1)).map (fun (j : Nat) => ((i + (j : Int)), 0)) =
         (i, 0) :: (List.range k).map (fun (j : Nat) => ((i + 1 + (j : Int)), 0)) := by
